@@ -136,7 +136,10 @@ func (n *ThreadedNewsYAML) PostArticle(newsPath []string, parentArticleID uint32
 	cats := n.getCatByPath(newsPath[:len(newsPath)-1])
 
 	catName := newsPath[len(newsPath)-1]
-	cat := cats[catName]
+	cat, ok := cats[catName]
+	if !ok {
+		return fmt.Errorf("news category not found")
+	}
 
 	var keys []int
 	for k := range cat.Articles {
@@ -188,7 +191,10 @@ func (n *ThreadedNewsYAML) DeleteArticle(newsPath []string, articleID uint32, _ 
 
 	catName := newsPath[len(newsPath)-1]
 
-	cat := cats[catName]
+	cat, ok := cats[catName]
+	if !ok {
+		return fmt.Errorf("news category not found")
+	}
 	delete(cat.Articles, articleID)
 	cats[catName] = cat
 
